@@ -309,7 +309,7 @@ def main(argv):
                              "detail": "exit %d: %s" % (rc, out[-3000:])})
         else:
             report = json.load(open(rpath))
-            files = [os.path.join(wdir, f) for f in report.get("coq_case_files", [])]
+            files = [os.path.join(wdir, f) for f in (report.get("coq_case_files") or [])]
             if files and not missing:
                 with ThreadPoolExecutor(max_workers=8) as ex:
                     evals = list(ex.map(eval_case_file, files))
